@@ -87,22 +87,25 @@ Qed.
 
 Theorem mol_pack_check_characterised m :
   mol_pack_check m = Ok tt <->
-  pm_atoms m <> [] /\ (forall a, In a (pm_atoms m) -> pa_n a <= 4095) /\ (forall a, In a (pm_atoms m) -> (length (pa_nbrs a) <= 15)%nat).
+  pm_atoms m <> [] /\ (forall a, In a (pm_atoms m) -> 1 <= pa_n a <= 4095) /\ (forall a, In a (pm_atoms m) -> (length (pa_nbrs a) <= 15)%nat).
 Proof.
   unfold mol_pack_check. destruct (pm_atoms m) as [|a0 r] eqn:Ea.
   - split; [discriminate | intros [H _]; contradiction].
   - rewrite <- Ea. split.
-    + destruct (4095 <? py_max (map pa_n (pm_atoms m)) 0) eqn:E1; [discriminate|].
+    + destruct ((py_min (map pa_n (pm_atoms m)) 1 <? 1) || (4095 <? py_max (map pa_n (pm_atoms m)) 0)) eqn:E1; [discriminate|].
       destruct (existsb (fun a => (15 <? length (pa_nbrs a))%nat) (pm_atoms m)) eqn:E2; [discriminate|]. intros _.
       split; [rewrite Ea; discriminate|]. split.
-      * intros a Ha. pose proof (py_max_ge (map pa_n (pm_atoms m)) (pa_n a) (in_map pa_n _ _ Ha)). lia.
+      * intros a Ha. pose proof (py_max_ge (map pa_n (pm_atoms m)) (pa_n a) (in_map pa_n _ _ Ha)).
+        pose proof (py_min_le (map pa_n (pm_atoms m)) (pa_n a) (in_map pa_n _ _ Ha)). lia.
       * intros a Ha. destruct (Nat.leb_spec (length (pa_nbrs a)) 15) as [L|L]; [exact L|].
         assert (existsb (fun a => (15 <? length (pa_nbrs a))%nat) (pm_atoms m) = true)
           by (apply existsb_exists; exists a; split; [exact Ha | apply Nat.ltb_lt; exact L]). congruence.
     + intros [_ [H1 H2]].
       assert (Hm : py_max (map pa_n (pm_atoms m)) 0 <= 4095).
       { apply py_max_le; [rewrite Ea; discriminate|]. intros y Hy. apply in_map_iff in Hy. destruct Hy as [a [Hn Ha]]. subst y. apply H1. exact Ha. }
-      destruct (4095 <? py_max (map pa_n (pm_atoms m)) 0) eqn:E1; [lia|].
+      assert (Hn : 1 <= py_min (map pa_n (pm_atoms m)) 1).
+      { apply py_min_ge; [rewrite Ea; discriminate|]. intros y Hy. apply in_map_iff in Hy. destruct Hy as [a [Hn Ha]]. subst y. apply H1. exact Ha. }
+      destruct ((py_min (map pa_n (pm_atoms m)) 1 <? 1) || (4095 <? py_max (map pa_n (pm_atoms m)) 0)) eqn:E1; [lia|].
       destruct (existsb (fun a => (15 <? length (pa_nbrs a))%nat) (pm_atoms m)) eqn:E2; [|reflexivity].
       apply existsb_exists in E2. destruct E2 as [a [Ha Hl]]. apply Nat.ltb_lt in Hl. pose proof (H2 a Ha). lia.
 Qed.
@@ -110,14 +113,16 @@ Qed.
 Definition decoded_atoms (m : pmol) : option (list uatom) :=
   match pack m with Ok b => match unpack b with Ok u => Some (up_atoms u) | Err _ => None end | Err _ => None end.
 
-(* "the check accepts only molecules within the format limits" is FALSE: accepted (so the API call is the .pyx packer),
-   outside the limits, and decoded to a different atom.  For the negative atom number the model shows the wrapped
-   number; in C the packer also writes seen[65535] outside its 4096 byte array (undefined behaviour, not modelled) *)
+(* atom numbers below 1 are rejected (since fix c3175c9; a negative number used to wrap to 65535 and make the packer
+   write outside its 4096 cell table) *)
+Theorem mol_pack_nonpositive_rejected :
+  mol_pack true unrep_negative = Err ValueError /\ mol_pack true unrep_zero = Err ValueError.
+Proof. vm_compute. split; reflexivity. Qed.
+
+(* "the check accepts only molecules within the format limits" is still FALSE for values that can only be written
+   through private attributes (the public setters validate isotope and charge; hydrogens are computed): accepted (so the
+   API call is the .pyx packer), outside the limits, and decoded to a different atom *)
 Theorem mol_pack_check_complete_refuted :
-  (mol_pack true unrep_negative = pack unrep_negative /\ pack_ok unrep_negative = false /\
-   option_map (map ua_n) (decoded_atoms unrep_negative) = Some [4095]) /\
-  (mol_pack true unrep_zero = pack unrep_zero /\ pack_ok unrep_zero = false /\
-   option_map (map ua_n) (decoded_atoms unrep_zero) = Some [0]) /\
   (mol_pack true unrep_h7 = pack unrep_h7 /\ pack_ok unrep_h7 = false /\
    option_map (map ua_h) (decoded_atoms unrep_h7) = Some [None]) /\
   (mol_pack true unrep_h8 = pack unrep_h8 /\ pack_ok unrep_h8 = false /\
@@ -130,9 +135,8 @@ Theorem mol_pack_check_complete_refuted :
    option_map (map (fun u => (ua_iso u, ua_stereo u))) (decoded_atoms unrep_isotope) = Some [(None, Some true)]).
 Proof. vm_compute. repeat split; reflexivity. Qed.
 
-(* what IS implied: accepted + the atom level limits the check does not look at (number >= 1, isotope offset, hydrogens,
-   charge, coordinate bytes) + the graph conditions = within the format limits *)
+(* what IS implied: accepted + the atom level limits the check does not look at (isotope offset, hydrogens, charge, coordinate bytes) + the graph conditions = within the format limits *)
 Theorem mol_pack_check_complete_partial m :
   mol_pack_check m = Ok tt ->
-  forall a, In a (pm_atoms m) -> pa_n a < 4096 /\ (length (pa_nbrs a) <= 15)%nat.
+  forall a, In a (pm_atoms m) -> 1 <= pa_n a < 4096 /\ (length (pa_nbrs a) <= 15)%nat.
 Proof. intros H a Ha. apply mol_pack_check_characterised in H. destruct H as [_ [H1 H2]]. split; [pose proof (H1 a Ha); lia | apply H2; exact Ha]. Qed.
